@@ -343,6 +343,8 @@ type Env struct {
 	MaxCases int
 	// IteAsAtom treats gated joins as opaque atoms instead of splitting cases.
 	IteAsAtom bool
+	// Expand, when set, returns the value an atom merely abbreviates (nil if it is a genuine unknown).
+	Expand func(name string) *sym.Term
 	// Err is set when the conversion gave up.
 	Err error
 }
@@ -485,6 +487,13 @@ func (e *Env) cases(t *sym.Term) []Case {
 		return one(RatVar(n))
 	}
 	switch t.Op {
+	case "atom":
+		if e.Expand != nil {
+			if v := e.Expand(t.Name); v != nil {
+				return e.cases(v)
+			}
+		}
+		return one(e.atom(t))
 	case "const":
 		if t.C != nil {
 			if r, ok := constRat(t.C); ok {
